@@ -18,7 +18,7 @@ RULE = (
     "the same array OBJECT at several leaf positions; the probes again after four kinds of raising checks; "
     "non-trivial = >=2 leaves and >=2 trees; distinct by (leaf type, trees, sizes)"
 )
-TRUSTED = ["Lean 4 kernel", "harness/extract.py: recognition of the set/clear protocol of the two flags", "jax.tree_util flatten order"]
+TRUSTED = ["Lean 4 kernel", "harness/extract.py: recognition of the set/clear protocol of the two flags", "jax.tree_util flatten order", "harness/translate_tree.py (recognisers of the statements of _MetaPyTree.__instancecheck__ / _check) and the interpreter Model/TreeDsl.lean (flatten and the structure block are primitives)"]
 
 P = {"op": "print"}
 
